@@ -164,6 +164,17 @@ def run_kani_set(pl, tier, obligations, assumptions, meta, filters=None, tag="k"
                                                  total_timeout=pl.get("total_timeout", {}).get(tier, 3600 if tier == "quick" else 6 * 3600),
                                                  features=pl.get("kani_features"), jobs=pl.get("kani_jobs"))
     meta["kani_runs"].append({"cmd": cmd, "wall_s": round(wall, 1), "rc": rc, "harnesses": len(res)})
+    # harnesses that produced no verdict for a resource reason (CBMC out of memory under parallel load, or missing from
+    # the interleaved output) are run once more, two at a time
+    retry = [n for n in sorted(expected) if n not in res or (res[n].status == "error" and re.search(r"out of memory|Killed|signal", res[n].text))]
+    if res and retry and len(retry) <= 64:
+        res2, text2, wall2, rc2, cmd2 = kbackend.run_kani(ov, retry, harness_timeout=ht, total_timeout=pl.get("total_timeout", {}).get(tier, 3600 if tier == "quick" else 6 * 3600),
+                                                      features=pl.get("kani_features"), jobs=2, exact=False)
+        meta["kani_runs"].append({"cmd": cmd2, "wall_s": round(wall2, 1), "rc": rc2, "harnesses": len(res2), "retry_of": len(retry)})
+        for n, h in res2.items():
+            if n in retry:
+                res[n] = h
+        wall += wall2
     if not res:
         m = re.findall(r"^error.*$", text, re.M)
         obligations.append(Obligation("K:*", "kani", "build", "undecided",
